@@ -353,7 +353,10 @@ func appendPobs(dst []byte, p *sketchpb.Store, scratch *[]binrec) []byte {
 
 // encodeWithPrefix implements the enc/kenc/menc convention: b := prefix; encode(&b); "# bytes"; ok / prefix-clobbered.
 func (v *vm) encodeWithPrefix(dstReg int, prefix []byte, encode func(b *[]byte)) {
-	b := make([]byte, len(prefix), len(prefix)+64)
+	// the spare capacity behind the prefix varies with its length (none, a few bytes, just under and over the size of
+	// small blocks, roomy): encoders that reserve room must keep what the buffer already holds
+	spare := []int{64, 0, 3, 36, 9, 200, 37, 1}[len(prefix)%8]
+	b := make([]byte, len(prefix), len(prefix)+spare)
 	copy(b, prefix)
 	encode(&b)
 	v.setB(dstReg, b)
